@@ -1,6 +1,7 @@
 """C18 check configuration (see lib/props.py for the field meanings)."""
 
 PROP = {
+    "thorough_scale": 4,
     "parts": [
         {"name": "schedule", "pkg": "internal/schedule", "files": ["schedule/c18_test.go"],
          "tests": [("TestVFC18Contains", (4000, 40000)), ("TestVFC18FullAndEmptyDay", (300, 2500)),
